@@ -365,7 +365,12 @@ def run(ctx: Ctx):
                                                                          [3, 1], [1, 3]]
     ok = True
     for sessions in small:
-        for agent, losses in (("scripted", 0), ("eps", 1), ("scripted", 2), ("scripted", 3)) if len(sessions) <= 2 and sum(sessions) <= 3 else (("scripted", 0),):
+        variants = (("scripted", 0),)
+        if len(sessions) <= 2 and sum(sessions) <= 3:
+            variants = (("scripted", 0), ("eps", 1), ("scripted", 2), ("scripted", 3))
+            if ctx.quick and sum(sessions) == 3 and len(sessions) == 2 and sessions[0] == 2:
+                variants = (("scripted", 0), ("eps", 1))   # [2,1] has ~10 000 schedules per script: two scripts in the quick tier
+        for agent, losses in variants:
             if not explore(ctx, scenario(sessions, agent=agent, losses=losses)):
                 ok = False
                 break
